@@ -58,6 +58,9 @@ Mutate(o) ==
   /\ IF o.op = "slice"
      THEN \* a new DataModel object over the sliced frame: nothing cached
           need' = TRUE /\ cache' = << >> /\ schema' = cols /\ indexer' = NoIndex
+     ELSE IF o.op = "wrap_and_touch"
+     THEN \* the second object shares the frame, the cached rows and the index dictionary of the first; its own dirty flag starts set
+          need' = TRUE /\ schema' = cols /\ UNCHANGED <<cache, indexer>>
      ELSE IF o.op \in {"reset_index", "touch_source"} \/ (o.op = "fillna" /\ ~FillnaSetsFlag)
      THEN UNCHANGED <<need, cache, schema, indexer>>
      ELSE need' = TRUE /\ schema' = cols' /\ indexer' = FlagIndexer(indexer) /\ UNCHANGED cache
